@@ -201,6 +201,55 @@ def check(ctx: Ctx) -> list[RuleResult]:
         raise AnalysisError("C13.R5: no handler/view shape instance found")
     out.append(r5)
 
+    # ---- R6 ---------------------------------------------------------------------------
+    # Entities do not share state through class-level containers: a dict/list/set bound in a class body is one object for every
+    # instance; mutating it through `self.<name>[...] = ` / `.append()` in a class that never re-binds `self.<name>` in a constructor
+    # makes one system's (or device's) packets overwrite another's.
+    r6 = RuleResult("R6", "no entity state in class-level containers", "a mutable class attribute is never mutated through self unless every mutating class re-binds it per instance", min_instances=1)
+    MUT6 = {"append", "extend", "insert", "pop", "remove", "clear", "update", "setdefault", "popitem", "add", "discard"}
+    n_cls_containers = 0
+    for ci in sorted(repo.classes.values(), key=lambda c: c.fullname):
+        if not ci.module.name.startswith(("ramses_rf", "ramses_tx")):
+            continue
+        for st in ci.node.body:
+            tgt = val = None
+            if isinstance(st, ast.Assign) and len(st.targets) == 1 and isinstance(st.targets[0], ast.Name):
+                tgt, val = st.targets[0].id, st.value
+            elif isinstance(st, ast.AnnAssign) and isinstance(st.target, ast.Name) and st.value is not None:
+                tgt, val = st.target.id, st.value
+            if tgt is None or not (isinstance(val, (ast.Dict, ast.List, ast.Set, ast.DictComp, ast.ListComp)) or (isinstance(val, ast.Call) and norm(val.func) in ("dict", "list", "set", "defaultdict", "deque"))):
+                continue
+            n_cls_containers += 1
+            r6.instances += 1
+            muts = []
+            rebinding_classes = set()
+            family = [ci] + ci.all_subclasses()
+            for c in family:
+                for fm in c.methods.values():
+                    for n in ast.walk(fm.node):
+                        if isinstance(n, ast.Subscript) and isinstance(n.ctx, (ast.Store, ast.Del)) and norm(n.value) == f"self.{tgt}":
+                            muts.append((fm, n))
+                        elif isinstance(n, ast.Call) and isinstance(n.func, ast.Attribute) and n.func.attr in MUT6 and norm(n.func.value) == f"self.{tgt}":
+                            muts.append((fm, n))
+                        elif isinstance(n, (ast.Assign, ast.AnnAssign)) and fm.name == "__init__":
+                            for t in n.targets if isinstance(n, ast.Assign) else [n.target]:
+                                if norm(t) == f"self.{tgt}":
+                                    rebinding_classes.add(c)
+            if not muts:
+                r6.ok({"class_attribute": f"{ci.name}.{tgt}", "mutated_through_self": False})
+                continue
+            r6.nontrivial += 1
+            # every class in which a mutation happens must have a constructor in its MRO (up to the defining class) that re-binds it
+            bad = [(fm, n) for fm, n in muts if not any(c in rebinding_classes for c in (fm.cls.mro if fm.cls is not None else []))]
+            if bad:
+                fm, n = bad[0]
+                r6.fail(f"{ci.fullname}.{tgt}:shared-class-container", fm.loc(n), f"{ci.name}.{tgt} is a {type(val).__name__.lower()} bound in the class body (one object shared by all instances) and {fm.short} mutates it through self without a per-instance re-binding in a constructor: what one entity learns overwrites the others' (e.g. a neighbour's controller changes this system's reported state)")
+            else:
+                r6.ok({"class_attribute": f"{ci.name}.{tgt}", "re-bound per instance in": sorted(c.name for c in rebinding_classes)})
+    if n_cls_containers < 1:
+        raise AnalysisError("no class-level container found at all: the scan is not seeing class bodies")
+    out.append(r6)
+
     # ---- R3 ---------------------------------------------------------------------------
     r3 = RuleResult("R3", "fault-log view coherence", "FaultLog._map/_log have one writer; a timestamp installed into _map is already in _log", min_instances=3)
     fl = repo.cls("ramses_rf.system.faultlog.FaultLog")
